@@ -31,4 +31,17 @@ def packetEncodeI (deviceId : Int) (ts command : Bytes) : R Bytes :=
   else if deviceId < 0 then overflow
   else packetEncode deviceId.toNat ts command
 
+/-- `_LanProtocolV3.write(data, packet_type=…)` on a live transport: the packet handed to the transport and the
+    packet counter afterwards (`+= 1`, `&= 0xFFF`).  Any other type is a TypeError and nothing is written. -/
+def writeV3I (key : Option Bytes) (packetId : Int) (data : Bytes) (ptype : Int) (padBytes : Bytes) : R (Bytes × Int) :=
+  if ptype = 6 then
+    match encodeEncryptedRequestI key packetId data padBytes with
+    | .ok p => .ok (p, (packetId + 1) % 4096)
+    | .error e => .error e
+  else if ptype = 0 then
+    match encodeHandshakeRequestI packetId data with
+    | .ok p => .ok (p, (packetId + 1) % 4096)
+    | .error e => .error e
+  else .error (.py "TypeError")
+
 end Msmart.Model
